@@ -39,6 +39,7 @@ type Prog struct {
 	pathCache    map[string][]*Path
 	carriedInfo  map[string]map[int]carriedInfo
 	lastPathKey  string
+	nn           *NN
 }
 
 type LoadConfig struct {
